@@ -76,7 +76,7 @@ func buildOps(nch int) []op {
 		nBefore := len(w.GS.Reqs)
 		var oerr error
 		hang, _ := mc.Call(func() {
-			oerr = w.T.OpenChannel(context.Background(), doubles.PeerB, w.Chans[0], root(), doubles.AllSelector(), st, reqMsg(1, restart, true))
+			oerr = w.T.OpenChannel(context.Background(), doubles.PeerB, w.Chans[0], root(), doubles.AllSelector(), st, reqMsg(2, restart, true))
 		})
 		if hang {
 			return want{custom: func(Delta) string { return "OpenChannel did not return" }}
@@ -128,7 +128,7 @@ func buildOps(nch int) []op {
 				return "the graphsync request carries no data-transfer extension"
 			}
 			m, err := message.FromIPLD(dtExt)
-			if err != nil || !m.IsRequest() || m.TransferID() != 1 || m.IsRestart() != restart {
+			if err != nil || !m.IsRequest() || m.TransferID() != 2 || m.IsRestart() != restart {
 				return "the data-transfer extension does not carry the request message"
 			}
 			if restart {
@@ -164,7 +164,7 @@ func buildOps(nch int) []op {
 		defer func() { w.H.Answer = nil }()
 		nBefore := len(w.GS.Reqs)
 		hang, _ := mc.Call(func() {
-			_ = w.T.OpenChannel(context.Background(), doubles.PeerB, w.Chans[0], root(), doubles.AllSelector(), nil, reqMsg(1, false, true))
+			_ = w.T.OpenChannel(context.Background(), doubles.PeerB, w.Chans[0], root(), doubles.AllSelector(), nil, reqMsg(2, false, true))
 		})
 		if hang {
 			n := mc.Unblock()
@@ -258,7 +258,7 @@ func buildOps(nch int) []op {
 	// same numeric transfer id as ch1 but authenticated peer C => channel {C,A,2} (index 3), never ch1
 	incoming("incoming(from-C,id-of-ch1)", doubles.PeerC, 3, func() map[graphsync.ExtensionName]datamodel.Node { return extOf(reqMsg(2, false, true)) }, "OnRequestReceived", false)
 	if nch >= 3 {
-		incoming("incoming(ch2,push-response)", doubles.PeerC, 2, func() map[graphsync.ExtensionName]datamodel.Node { return extOf(respMsg(3)) }, "OnResponseReceived", false)
+		incoming("incoming(ch2,push-response)", doubles.PeerC, 2, func() map[graphsync.ExtensionName]datamodel.Node { return extOf(respMsg(2)) }, "OnResponseReceived", false)
 	}
 
 	// ---- request-scoped callbacks
@@ -392,12 +392,7 @@ func buildOps(nch int) []op {
 			m    func(ci int) datatransfer.Message
 			ok   func(ci int) bool
 		}
-		tidOf := func(ci int) datatransfer.TransferID {
-			if ci == 1 {
-				return 2
-			}
-			return 1
-		}
+		tidOf := func(ci int) datatransfer.TransferID { return 2 } // every channel of the world carries transfer id 2
 		evs := []ev{
 			{"own-kind,from-B", doubles.PeerB, func(ci int) datatransfer.Message {
 				if ci == 1 {
